@@ -199,7 +199,8 @@ def group(name, fn, functions, props):
             stats = {"inlined": set().union(*[i.stats["inlined"] for i in its]) if its else set()}
         g.interp = _I
         for o in obs:
-            o.properties = list(props)
+            if not getattr(o, "props_fixed", False):
+                o.properties = list(props)
         return obs
     g.__name__ = name
     g.functions = functions
@@ -615,7 +616,9 @@ def vc_string():
             ob("size_word", XB.W8(b.mem, o) == size)
             if form == "str":
                 ob("data_bytes", forall_x(lambda x: z3.Implies(z3.And(0 <= x, x < L), b.mem[o + 8 + x] == val.mem[x])))
-                ob("zero_padding_to_size", forall_x(lambda x: z3.Implies(z3.And(L <= x, x < size - 8), b.mem[o + 8 + x] == 0)))
+                zp = ob("zero_padding_to_size", forall_x(lambda x: z3.Implies(z3.And(L <= x, x < size - 8), b.mem[o + 8 + x] == 0)))
+                zp.properties, zp.props_fixed = ["C01"], True  # the library's own reader strips trailing NULs: it needs the padding to be NUL
+                ob("nul_terminated", b.mem[o + 8 + L] == 0)  # the documented format: data followed by at least one NUL inside the size
             elif form == "capacity":
                 ob("empty_string", forall_x(lambda x: z3.Implies(z3.And(0 <= x, x < size - 8), b.mem[o + 8 + x] == 0)))
             else:
